@@ -1569,7 +1569,8 @@ class Client:
 
         # Mark all currently outgoing QoS = 0 packets as lost,
         # or `wait_for_publish()` could hang forever
-        for pkt in self._out_packet:
+        # (iterate over a snapshot: another thread may be queueing a packet right now)
+        for pkt in list(self._out_packet):
             if pkt["command"] & 0xF0 == PUBLISH and pkt["qos"] == 0 and pkt["info"] is not None:
                 pkt["info"].rc = MQTT_ERR_CONN_LOST
                 pkt["info"]._set_as_published()
